@@ -21,6 +21,7 @@ PROP = "C06"
 HAS_SEARCH_TIER = True
 LEAN_MODULES = ["DrxProps.C06"]
 FAMILIES = ["bitd"]
+MODEL_REPRODUCES_KNOWN_FINDINGS = True      # the model is of the code that exists: see core.main, stage K
 RULE = ("images: every canvas width 1..40 x (H, top offset) in {(1,0),(2,0),(3,1),(2,1)} x left offset 0..5 for 1- and 8-bit, each raw "
         "and under several scan-line PackBits segmentations (one op per line, op per byte, alignment byte in its own op, random "
         "cuts; runs where bytes repeat, literals otherwise; alignment bits/bytes 0, 0xFF or random); every segmentation of short "
